@@ -1,6 +1,888 @@
-//! C16 harnesses (see /verif/kani/README.md for conventions)
+//! C16: byte, hex, word and primitive conversions are lossless, positional and strict.
+//! Bounds: Uint<1> (U64) and Uint<2> (U128) in the quick tier, Uint<3> (U192) in the thorough tier, all byte / word
+//! values symbolic; Int at I64 <-> I128; BoxedUint::from_{be,le}_slice at the concrete precisions
+//! {0,1,7,8,9,63,64,65,127,128} with 0..=min(precision/8 + 2, 18) symbolic input octets (symbolic length).
+//! `#[kani::should_panic]` harnesses end in `returned_instead_of_panicking()`, so they prove "panics for every
+//! admitted input", not only "can panic".
+//! Not covered here: serde (no serializer crate among the dependencies of this crate), Display / LowerHex / UpperHex /
+//! Binary (formatting machinery), radix string conversions, BoxedUint::from_be_hex, widths above U192.
+//!
+//! Reference semantics: the value of a number is carried as its 64-bit words `w` (x = sum w[j] 2^(64 j)) or as a
+//! `u128`; "byte k of x" is floor(x / 256^k) mod 256, computed by `le_byte` / `>> (8 k)` (division by a power of 256).
 use crate::*;
+use crate::util::*;
+use alloc::boxed::Box;
+use crypto_bigint::hybrid_array::Array;
 use crypto_bigint::*;
 
+/// floor(x / 256^k) mod 256 for x = sum w[j] 2^(64 j)
+fn le_byte(w: &[u64], k: usize) -> u8 { (w[k / 8] >> (8 * (k % 8))) as u8 }
+/// big-endian byte i of the n-byte value x: floor(x / 256^(n-1-i)) mod 256
+fn be_byte(w: &[u64], n: usize, i: usize) -> u8 { le_byte(w, n - 1 - i) }
+
+/// value of one hex digit, `None` outside [0-9a-fA-F]
+fn hexval(c: u8) -> Option<u8> {
+    if c >= b'0' && c <= b'9' { Some(c - b'0') }
+    else if c >= b'a' && c <= b'f' { Some(c - b'a' + 10) }
+    else if c >= b'A' && c <= b'F' { Some(c - b'A' + 10) }
+    else { None }
+}
+fn all_hex(b: &[u8]) -> bool {
+    let mut ok = true;
+    let mut i = 0;
+    while i < b.len() { ok &= hexval(b[i]).is_some(); i += 1; }
+    ok
+}
+fn all_ascii(b: &[u8]) -> bool {
+    let mut ok = true;
+    let mut i = 0;
+    while i < b.len() { ok &= b[i] < 0x80; i += 1; }
+    ok
+}
+/// byte i (in string order) denoted by the hex string `h`
+fn hex_byte(h: &[u8], i: usize) -> u8 { (hexval(h[2 * i]).unwrap() << 4) | hexval(h[2 * i + 1]).unwrap() }
+
+/// Reached only if the call under test *returned* in a `#[kani::should_panic]` harness. Kani accepts such a harness
+/// when at least one panic is reachable and every failure is a panic; this adds a failure of another class
+/// (null dereference), so that the harness is accepted only if the call panics for **every** admitted input.
+/// In the native replay driver the function is a no-op (the driver reports "expected panic did not happen").
+fn returned_instead_of_panicking() {
+    #[cfg(kani)]
+    unsafe {
+        let p: *const u8 = core::ptr::null();
+        let v = core::ptr::read_volatile(p);
+        core::hint::black_box(v);
+    }
+}
+
+fn i128_of(x: &I128) -> i128 { let w = x.as_words(); (w[0] as u128 | ((w[1] as u128) << 64)) as i128 }
+
+/// `body` once for every listed index, as straight-line code: the BoxedUint harnesses run under a small global
+/// `#[kani::unwind]` (see `boxed_slice_case`), so the reference computations must not contain loops.
+macro_rules! unrolled {
+    ($i:ident in [$($n:expr),*] $body:block) => { $( { let $i: usize = $n; $body } )* };
+}
+/// 18 input octets, drawn without a loop
+fn draw18<S: Src>(s: &mut S) -> [u8; 18] {
+    let mut a = [0u8; 18];
+    unrolled!(i in [0,1,2,3,4,5,6,7,8,9,10,11,12,13,14,15,16,17] { a[i] = s.u8(); });
+    a
+}
+
+/// `BoxedUint::from_be_slice` / `from_le_slice` against the rustdoc of src/uint/boxed/encoding.rs:
+/// * `Err(InputSize)` iff `len > ceil(precision / 8)`;
+/// * otherwise `Err(Precision)` iff the decoded integer needs more than `precision` bits (value >= 2^precision);
+/// * otherwise `Ok(v)`, v = positional value of the octets, `v.bits_precision()` = precision rounded up to a multiple
+///   of 64 (a `BoxedUint` always has at least one limb, so 64 for precision 0);
+/// (`to_be_bytes` / `to_le_bytes` are checked for all values in `c16_boxed_to_*bytes_*`: composing several heap
+/// operations in one harness makes the CBMC formula explode, a single decode is 5-10 s.)
+/// Requires precision <= 128 and len <= 18.
+///
+/// CBMC cannot decide the exit of the `zip` loops over the boxed limbs (heap pointers), so without a bound it unwinds
+/// them up to the global limit, each iteration with a `copy_from_slice`: the harnesses therefore run with
+/// `#[kani::unwind(4)]` (<= 2 limbs => <= 2 iterations; unwinding assertions prove that this suffices) and this
+/// function is loop-free.
+fn boxed_slice_case<S: Src>(s: &mut S, buf: &[u8; 18], len: usize, precision: u32, be: bool) {
+    let bytes = &buf[..len];
+    let res = if be { BoxedUint::from_be_slice(bytes, precision) } else { BoxedUint::from_le_slice(bytes, precision) };
+    let max_len = (precision as usize + 7) / 8;
+    if len > max_len {
+        assert!(matches!(res, Err(DecodeError::InputSize)));
+        return;
+    }
+    // positional value; len <= 16 here
+    let mut val: u128 = 0;
+    unrolled!(i in [0,1,2,3,4,5,6,7,8,9,10,11,12,13,14,15] {
+        if i < len {
+            let k = if be { len - 1 - i } else { i }; // weight 256^k
+            val |= (buf[i] as u128) << (8 * k);
+        }
+    });
+    let too_big = precision < 128 && (val >> precision) != 0;
+    if too_big {
+        if precision % 8 != 0 { s.cover(true); } // (unreachable when 8 | precision: the length check is then sufficient)
+        assert!(matches!(res, Err(DecodeError::Precision)));
+        return;
+    }
+    s.cover(len == max_len);
+    let v = match res { Ok(v) => v, Err(_) => { assert!(false, "well-formed input rejected"); return; } };
+    let want_limbs: usize = if precision <= 64 { 1 } else { 2 };
+    assert!(v.bits_precision() == 64 * want_limbs as u32);
+    assert!(v.nlimbs() == want_limbs);
+    let w = v.as_words();
+    assert!(w[0] == val as u64);
+    if want_limbs == 2 { assert!(w[1] == (val >> 64) as u64); } else { assert!(val >> 64 == 0); }
+}
+
 harnesses! {
+    // ------------------------------------------------------------------ bytes <-> Uint
+
+    /// U64: from_be/le_slice, Encoding::{from,to}_{be,le}_bytes, inherent to_{be,le}_bytes, ArrayEncoding:
+    /// positional and mutually inverse, for all 8-octet strings
+    fn c16_bytes_u64(s) {
+        let b: [u8; 8] = s.bytes();
+        let xb = U64::from_be_slice(&b);
+        let xl = U64::from_le_slice(&b);
+        let wb = xb.to_words();
+        let wl = xl.to_words();
+        let mut i = 0;
+        while i < 8 {
+            assert!(b[i] == be_byte(&wb, 8, i));
+            assert!(b[i] == le_byte(&wl, i));
+            i += 1;
+        }
+        assert!(<U64 as Encoding>::from_be_bytes(b) == xb);
+        assert!(<U64 as Encoding>::from_le_bytes(b) == xl);
+        let mut ab = Array::<u8, hybrid_array::typenum::U8>::default();
+        ab.copy_from_slice(&b);
+        assert!(<U64 as ArrayEncoding>::from_be_byte_array(ab) == xb);
+        assert!(<U64 as ArrayEncoding>::from_le_byte_array(ab) == xl);
+        assert!(ab.into_uint_be() == xb);
+        assert!(ab.into_uint_le() == xl);
+        // inverses
+        let o1 = xb.to_be_bytes();
+        let o2 = <U64 as Encoding>::to_be_bytes(&xb);
+        let o3 = xb.to_be_byte_array();
+        let p1 = xl.to_le_bytes();
+        let p2 = <U64 as Encoding>::to_le_bytes(&xl);
+        let p3 = xl.to_le_byte_array();
+        let mut i = 0;
+        while i < 8 {
+            assert!(o1[i] == b[i] && o2[i] == b[i] && o3[i] == b[i]);
+            assert!(p1[i] == b[i] && p2[i] == b[i] && p3[i] == b[i]);
+            i += 1;
+        }
+    }
+
+    /// U64, value side: to_be/le_bytes are positional for every value and decode back to it
+    fn c16_value_bytes_u64(s) {
+        let v = s.u64();
+        let x = mk64(v);
+        let be = x.to_be_bytes();
+        let le = x.to_le_bytes();
+        let mut i = 0;
+        while i < 8 {
+            assert!(be[i] == (v >> (8 * (7 - i))) as u8);
+            assert!(le[i] == (v >> (8 * i)) as u8);
+            i += 1;
+        }
+        assert!(u64_of(&U64::from_be_slice(&be)) == v);
+        assert!(u64_of(&U64::from_le_slice(&le)) == v);
+        assert!(u64_of(&<U64 as Encoding>::from_be_bytes(be)) == v);
+        assert!(u64_of(&<U64 as Encoding>::from_le_bytes(le)) == v);
+    }
+
+    /// U128: same as c16_bytes_u64 for all 16-octet strings
+    fn c16_bytes_u128(s) {
+        let b: [u8; 16] = s.bytes();
+        let xb = U128::from_be_slice(&b);
+        let xl = U128::from_le_slice(&b);
+        let wb = xb.to_words();
+        let wl = xl.to_words();
+        let mut i = 0;
+        while i < 16 {
+            assert!(b[i] == be_byte(&wb, 16, i));
+            assert!(b[i] == le_byte(&wl, i));
+            i += 1;
+        }
+        assert!(<U128 as Encoding>::from_be_bytes(b) == xb);
+        assert!(<U128 as Encoding>::from_le_bytes(b) == xl);
+        let mut ab = Array::<u8, hybrid_array::typenum::U16>::default();
+        ab.copy_from_slice(&b);
+        assert!(<U128 as ArrayEncoding>::from_be_byte_array(ab) == xb);
+        assert!(<U128 as ArrayEncoding>::from_le_byte_array(ab) == xl);
+        let o1 = xb.to_be_bytes();
+        let o2 = <U128 as Encoding>::to_be_bytes(&xb);
+        let o3 = xb.to_be_byte_array();
+        let p1 = xl.to_le_bytes();
+        let p2 = <U128 as Encoding>::to_le_bytes(&xl);
+        let p3 = xl.to_le_byte_array();
+        let mut i = 0;
+        while i < 16 {
+            assert!(o1[i] == b[i] && o2[i] == b[i] && o3[i] == b[i]);
+            assert!(p1[i] == b[i] && p2[i] == b[i] && p3[i] == b[i]);
+            i += 1;
+        }
+    }
+
+    /// U128, value side
+    fn c16_value_bytes_u128(s) {
+        let v = s.u128();
+        let x = mk128(v);
+        let be = x.to_be_bytes();
+        let le = x.to_le_bytes();
+        let mut i = 0;
+        while i < 16 {
+            assert!(be[i] == (v >> (8 * (15 - i))) as u8);
+            assert!(le[i] == (v >> (8 * i)) as u8);
+            i += 1;
+        }
+        assert!(u128_of(&U128::from_be_slice(&be)) == v);
+        assert!(u128_of(&U128::from_le_slice(&le)) == v);
+    }
+
+    /// U192 (thorough): byte side and value side
+    fn c16t_bytes_u192(s) {
+        let b: [u8; 24] = s.bytes();
+        let xb = U192::from_be_slice(&b);
+        let xl = U192::from_le_slice(&b);
+        let wb = xb.to_words();
+        let wl = xl.to_words();
+        let mut i = 0;
+        while i < 24 {
+            assert!(b[i] == be_byte(&wb, 24, i));
+            assert!(b[i] == le_byte(&wl, i));
+            i += 1;
+        }
+        assert!(<U192 as Encoding>::from_be_bytes(b) == xb);
+        assert!(<U192 as Encoding>::from_le_bytes(b) == xl);
+        let o1 = xb.to_be_bytes();
+        let o2 = <U192 as Encoding>::to_be_bytes(&xb);
+        let o3 = xb.to_be_byte_array();
+        let p1 = xl.to_le_bytes();
+        let p2 = <U192 as Encoding>::to_le_bytes(&xl);
+        let p3 = xl.to_le_byte_array();
+        let mut i = 0;
+        while i < 24 {
+            assert!(o1[i] == b[i] && o2[i] == b[i] && o3[i] == b[i]);
+            assert!(p1[i] == b[i] && p2[i] == b[i] && p3[i] == b[i]);
+            i += 1;
+        }
+        let w: [u64; 3] = s.words();
+        let x = mk192(w);
+        let be = x.to_be_bytes();
+        let le = x.to_le_bytes();
+        let mut i = 0;
+        while i < 24 {
+            assert!(be[i] == be_byte(&w, 24, i));
+            assert!(le[i] == le_byte(&w, i));
+            i += 1;
+        }
+        let yb = U192::from_be_slice(&be).to_words();
+        let yl = U192::from_le_slice(&le).to_words();
+        assert!(yb[0] == w[0] && yb[1] == w[1] && yb[2] == w[2]);
+        assert!(yl[0] == w[0] && yl[1] == w[1] && yl[2] == w[2]);
+    }
+
+    /// from_be_slice with a slice of any length 0..=10 other than 8 panics (U64)
+    #[kani::should_panic]
+    fn c16_be_slice_wrong_len_u64(s) {
+        let buf: [u8; 10] = s.bytes();
+        let len = s.usize();
+        s.assume(len <= 10 && len != 8);
+        let _ = U64::from_be_slice(&buf[..len]);
+        returned_instead_of_panicking();
+    }
+    /// from_le_slice with a slice of any length 0..=10 other than 8 panics (U64)
+    #[kani::should_panic]
+    fn c16_le_slice_wrong_len_u64(s) {
+        let buf: [u8; 10] = s.bytes();
+        let len = s.usize();
+        s.assume(len <= 10 && len != 8);
+        let _ = U64::from_le_slice(&buf[..len]);
+        returned_instead_of_panicking();
+    }
+    /// from_be_slice with a slice of any length 0..=18 other than 16 panics (U128)
+    #[kani::should_panic]
+    fn c16_be_slice_wrong_len_u128(s) {
+        let buf: [u8; 18] = s.bytes();
+        let len = s.usize();
+        s.assume(len <= 18 && len != 16);
+        let _ = U128::from_be_slice(&buf[..len]);
+        returned_instead_of_panicking();
+    }
+    /// from_le_slice with a slice of any length 0..=18 other than 16 panics (U128)
+    #[kani::should_panic]
+    fn c16_le_slice_wrong_len_u128(s) {
+        let buf: [u8; 18] = s.bytes();
+        let len = s.usize();
+        s.assume(len <= 18 && len != 16);
+        let _ = U128::from_le_slice(&buf[..len]);
+        returned_instead_of_panicking();
+    }
+
+    // ------------------------------------------------------------------ hex
+
+    /// U64::from_be_hex / from_le_hex / Int::from_be_hex accept every 16-character string over [0-9a-fA-F]
+    /// (either case, mixed) and return the positional value
+    fn c16_hex_u64_ok(s) {
+        let h: [u8; 16] = s.bytes();
+        s.assume(all_hex(&h));
+        s.cover(h[0] == b'f' && h[1] == b'F' && h[2] == b'9' && h[3] == b'a' && h[4] == b'A' && h[5] == b'0');
+        let st = unsafe { core::str::from_utf8_unchecked(&h) };
+        let xb = U64::from_be_hex(st);
+        let xl = U64::from_le_hex(st);
+        let wb = xb.to_words();
+        let wl = xl.to_words();
+        let mut i = 0;
+        while i < 8 {
+            // hex pair i is big-endian byte i / little-endian byte i
+            assert!(be_byte(&wb, 8, i) == hex_byte(&h, i));
+            assert!(le_byte(&wl, i) == hex_byte(&h, i));
+            i += 1;
+        }
+        assert!(I64::from_be_hex(st).as_uint().to_words()[0] == wb[0]);
+    }
+
+    /// U128 (big endian): every 32-character hex string
+    fn c16_hex_be_u128_ok(s) {
+        let h: [u8; 32] = s.bytes();
+        s.assume(all_hex(&h));
+        s.cover(true);
+        let st = unsafe { core::str::from_utf8_unchecked(&h) };
+        let wb = U128::from_be_hex(st).to_words();
+        let mut i = 0;
+        while i < 16 {
+            assert!(be_byte(&wb, 16, i) == hex_byte(&h, i));
+            i += 1;
+        }
+    }
+    /// U128 (little endian): every 32-character hex string
+    fn c16_hex_le_u128_ok(s) {
+        let h: [u8; 32] = s.bytes();
+        s.assume(all_hex(&h));
+        s.cover(true);
+        let st = unsafe { core::str::from_utf8_unchecked(&h) };
+        let wl = U128::from_le_hex(st).to_words();
+        let mut i = 0;
+        while i < 16 {
+            assert!(le_byte(&wl, i) == hex_byte(&h, i));
+            i += 1;
+        }
+    }
+
+    /// U64::from_be_hex panics on every 16-character ASCII string containing a character outside [0-9a-fA-F]
+    /// (all 128 ASCII values in every position, incl. '/', ':', '@', 'G', '`', 'g')
+    #[kani::should_panic]
+    fn c16_hex_be_u64_bad_char(s) {
+        let h: [u8; 16] = s.bytes();
+        s.assume(all_ascii(&h) && !all_hex(&h));
+        let st = unsafe { core::str::from_utf8_unchecked(&h) };
+        let _ = U64::from_be_hex(st);
+        returned_instead_of_panicking();
+    }
+    /// same for U64::from_le_hex
+    #[kani::should_panic]
+    fn c16_hex_le_u64_bad_char(s) {
+        let h: [u8; 16] = s.bytes();
+        s.assume(all_ascii(&h) && !all_hex(&h));
+        let st = unsafe { core::str::from_utf8_unchecked(&h) };
+        let _ = U64::from_le_hex(st);
+        returned_instead_of_panicking();
+    }
+    /// the neighbours of the three accepted ranges, one at a time in a symbolic position, rest valid hex: panic
+    #[kani::should_panic]
+    fn c16_hex_be_u64_boundary_chars(s) {
+        let mut h: [u8; 16] = s.bytes();
+        s.assume(all_hex(&h));
+        let pos = s.usize();
+        s.assume(pos < 16);
+        let which = s.u8();
+        s.assume(which < 6);
+        let bad = [b'/', b':', b'@', b'G', b'`', b'g'];
+        h[pos] = bad[which as usize];
+        let st = unsafe { core::str::from_utf8_unchecked(&h) };
+        let _ = U64::from_be_hex(st);
+        returned_instead_of_panicking();
+    }
+    /// bytes 0x80..=0xff (as a valid two-byte UTF-8 scalar 0xC2..=0xDF 0x80..=0xBF in a symbolic even position,
+    /// rest valid hex) are rejected: panic
+    #[kani::should_panic]
+    fn c16_hex_be_u64_non_ascii(s) {
+        let mut h: [u8; 16] = s.bytes();
+        s.assume(all_hex(&h));
+        let pos = s.usize();
+        s.assume(pos < 8);
+        let a = s.u8();
+        let b = s.u8();
+        s.assume(a >= 0xC2 && a <= 0xDF && b >= 0x80 && b <= 0xBF);
+        h[2 * pos] = a;
+        h[2 * pos + 1] = b;
+        let st = unsafe { core::str::from_utf8_unchecked(&h) };
+        let _ = U64::from_be_hex(st);
+        returned_instead_of_panicking();
+    }
+    /// U128::from_be_hex: any ASCII string with a non-hex character panics
+    #[kani::should_panic]
+    fn c16_hex_be_u128_bad_char(s) {
+        let h: [u8; 32] = s.bytes();
+        s.assume(all_ascii(&h) && !all_hex(&h));
+        let st = unsafe { core::str::from_utf8_unchecked(&h) };
+        let _ = U128::from_be_hex(st);
+        returned_instead_of_panicking();
+    }
+    /// U128::from_le_hex: any ASCII string with a non-hex character panics
+    #[kani::should_panic]
+    fn c16_hex_le_u128_bad_char(s) {
+        let h: [u8; 32] = s.bytes();
+        s.assume(all_ascii(&h) && !all_hex(&h));
+        let st = unsafe { core::str::from_utf8_unchecked(&h) };
+        let _ = U128::from_le_hex(st);
+        returned_instead_of_panicking();
+    }
+    /// valid hex digits but a length in 0..=18 other than 16: from_be_hex panics (not zero-padded / too long)
+    #[kani::should_panic]
+    fn c16_hex_be_u64_wrong_len(s) {
+        let h: [u8; 18] = s.bytes();
+        s.assume(all_hex(&h));
+        let len = s.usize();
+        s.assume(len <= 18 && len != 16);
+        let st = unsafe { core::str::from_utf8_unchecked(&h[..len]) };
+        let _ = U64::from_be_hex(st);
+        returned_instead_of_panicking();
+    }
+    /// same for from_le_hex
+    #[kani::should_panic]
+    fn c16_hex_le_u64_wrong_len(s) {
+        let h: [u8; 18] = s.bytes();
+        s.assume(all_hex(&h));
+        let len = s.usize();
+        s.assume(len <= 18 && len != 16);
+        let st = unsafe { core::str::from_utf8_unchecked(&h[..len]) };
+        let _ = U64::from_le_hex(st);
+        returned_instead_of_panicking();
+    }
+
+    // ------------------------------------------------------------------ primitives and words
+
+    /// from_u8..from_u128, From<u8..u128>, from_word, from_wide_word, From<Limb>, Into<u64/u128>: value preserved,
+    /// upper limbs zero (U64, U128, U192)
+    fn c16_primitives(s) {
+        let a8 = s.u8(); let a16 = s.u16(); let a32 = s.u32(); let a64 = s.u64(); let a128 = s.u128();
+        // U64
+        assert!(u64_of(&U64::from_u8(a8)) == a8 as u64);
+        assert!(u64_of(&U64::from_u16(a16)) == a16 as u64);
+        assert!(u64_of(&U64::from_u32(a32)) == a32 as u64);
+        assert!(u64_of(&U64::from_u64(a64)) == a64);
+        assert!(u64_of(&U64::from_word(a64)) == a64);
+        assert!(u64_of(&U64::from(a8)) == a8 as u64);
+        assert!(u64_of(&U64::from(a16)) == a16 as u64);
+        assert!(u64_of(&U64::from(a32)) == a32 as u64);
+        assert!(u64_of(&U64::from(a64)) == a64);
+        assert!(u64_of(&U64::from(Limb(a64))) == a64);
+        assert!(u64::from(mk64(a64)) == a64);
+        // U128
+        assert!(u128_of(&U128::from_u8(a8)) == a8 as u128);
+        assert!(u128_of(&U128::from_u16(a16)) == a16 as u128);
+        assert!(u128_of(&U128::from_u32(a32)) == a32 as u128);
+        assert!(u128_of(&U128::from_u64(a64)) == a64 as u128);
+        assert!(u128_of(&U128::from_u128(a128)) == a128);
+        assert!(u128_of(&U128::from_word(a64)) == a64 as u128);
+        assert!(u128_of(&U128::from_wide_word(a128)) == a128);
+        assert!(u128_of(&U128::from(a8)) == a8 as u128);
+        assert!(u128_of(&U128::from(a16)) == a16 as u128);
+        assert!(u128_of(&U128::from(a32)) == a32 as u128);
+        assert!(u128_of(&U128::from(a64)) == a64 as u128);
+        assert!(u128_of(&U128::from(a128)) == a128);
+        assert!(u128_of(&U128::from(Limb(a64))) == a64 as u128);
+        assert!(u128::from(mk128(a128)) == a128);
+        // U192
+        let w = U192::from_u128(a128).to_words();
+        assert!(w[0] == a128 as u64 && w[1] == (a128 >> 64) as u64 && w[2] == 0);
+        let w = U192::from_wide_word(a128).to_words();
+        assert!(w[0] == a128 as u64 && w[1] == (a128 >> 64) as u64 && w[2] == 0);
+        let w = U192::from_u64(a64).to_words();
+        assert!(w[0] == a64 && w[1] == 0 && w[2] == 0);
+        let w = U192::from(a32).to_words();
+        assert!(w[0] == a32 as u64 && w[1] == 0 && w[2] == 0);
+        let w = U192::from(a128).to_words();
+        assert!(w[0] == a128 as u64 && w[1] == (a128 >> 64) as u64 && w[2] == 0);
+    }
+
+    /// from_u128 / from_wide_word on a one-limb integer cannot hold the value: documented panic (limb-count assertion)
+    #[kani::should_panic]
+    fn c16_from_u128_one_limb_panics(s) {
+        let a = s.u128();
+        let _ = U64::from_u128(a);
+        returned_instead_of_panicking();
+    }
+    #[kani::should_panic]
+    fn c16_from_wide_word_one_limb_panics(s) {
+        let a = s.u128();
+        let _ = U64::from_wide_word(a);
+        returned_instead_of_panicking();
+    }
+
+    /// signed primitives: Int::from_i8..from_i128 / From<i*> sign-extend (I64, I128); from_i128 into I64 truncates
+    fn c16_int_primitives(s) {
+        let a8 = s.u8() as i8; let a16 = s.u16() as i16; let a32 = s.u32() as i32; let a64 = s.i64(); let a128 = s.i128();
+        assert!(I64::from_i8(a8).as_words()[0] == a8 as i64 as u64);
+        assert!(I64::from_i16(a16).as_words()[0] == a16 as i64 as u64);
+        assert!(I64::from_i32(a32).as_words()[0] == a32 as i64 as u64);
+        assert!(I64::from_i64(a64).as_words()[0] == a64 as u64);
+        assert!(I64::from(a8).as_words()[0] == a8 as i64 as u64);
+        assert!(I64::from(a64).as_words()[0] == a64 as u64);
+        assert!(i128_of(&I128::from_i8(a8)) == a8 as i128);
+        assert!(i128_of(&I128::from_i16(a16)) == a16 as i128);
+        assert!(i128_of(&I128::from_i32(a32)) == a32 as i128);
+        assert!(i128_of(&I128::from_i64(a64)) == a64 as i128);
+        assert!(i128_of(&I128::from_i128(a128)) == a128);
+        assert!(i128_of(&I128::from(a16)) == a16 as i128);
+        assert!(i128_of(&I128::from(a32)) == a32 as i128);
+        assert!(i128_of(&I128::from(a64)) == a64 as i128);
+        assert!(i128_of(&I128::from(a128)) == a128);
+        let w = Int::<3>::from_i64(a64).to_words();
+        let ext = if a64 < 0 { u64::MAX } else { 0 };
+        assert!(w[0] == a64 as u64 && w[1] == ext && w[2] == ext);
+        let w = Int::<3>::from_i128(a128).to_words();
+        let ext = if a128 < 0 { u64::MAX } else { 0 };
+        assert!(w[0] == a128 as u64 && w[1] == (a128 >> 64) as u64 && w[2] == ext);
+    }
+
+    /// to_words / from_words / as_words / to_limbs / From<[Word; N]> / Into<[Word; N]> / From<[Limb; N]>: limb j is
+    /// word j (little-endian limb order), U64 / U128 / U192 and Int
+    fn c16_words(s) {
+        let w: [u64; 3] = s.words();
+        let x1 = U64::from_words([w[0]]);
+        assert!(x1.to_words()[0] == w[0] && x1.as_words()[0] == w[0] && x1.to_limbs()[0].0 == w[0]);
+        let x2 = U128::from_words([w[0], w[1]]);
+        let t = x2.to_words();
+        assert!(t[0] == w[0] && t[1] == w[1]);
+        assert!(x2.as_words()[0] == w[0] && x2.as_words()[1] == w[1]);
+        assert!(x2.as_limbs()[0].0 == w[0] && x2.as_limbs()[1].0 == w[1]);
+        assert!(u128::from(x2) == (w[0] as u128) | ((w[1] as u128) << 64));
+        let x3 = U192::from_words(w);
+        let t = x3.to_words();
+        assert!(t[0] == w[0] && t[1] == w[1] && t[2] == w[2]);
+        let a = x3.as_words();
+        assert!(a[0] == w[0] && a[1] == w[1] && a[2] == w[2]);
+        let y3 = U192::from(w);
+        assert!(y3 == x3);
+        let back: [u64; 3] = y3.into();
+        assert!(back[0] == w[0] && back[1] == w[1] && back[2] == w[2]);
+        let z3 = U192::from([Limb(w[0]), Limb(w[1]), Limb(w[2])]);
+        assert!(z3 == x3);
+        let n3 = U192::new([Limb(w[0]), Limb(w[1]), Limb(w[2])]);
+        assert!(n3 == x3);
+        let l: [Limb; 3] = z3.into();
+        assert!(l[0].0 == w[0] && l[1].0 == w[1] && l[2].0 == w[2]);
+        let i2 = I128::from_words([w[0], w[1]]);
+        assert!(i2.to_words()[0] == w[0] && i2.to_words()[1] == w[1]);
+        assert!(i2.as_uint().to_words()[0] == w[0] && i2.as_uint().to_words()[1] == w[1]);
+        assert!(x2.as_int().to_words()[0] == w[0] && x2.as_int().to_words()[1] == w[1]);
+    }
+
+    // ------------------------------------------------------------------ concat / split / resize
+
+    /// concat (U64,U64 -> U128), split (U128 -> 2 x U64), tuple From impls, concat_mixed/split_mixed at
+    /// (U64,U128 <-> U192): value = lo + hi * 2^(64 L), both ways
+    fn c16_concat_split(s) {
+        let lo = s.u64(); let hi = s.u64();
+        let c: U128 = mk64(lo).concat(&mk64(hi));
+        assert!(u128_of(&c) == (lo as u128) | ((hi as u128) << 64));
+        let c2: U128 = (mk64(lo), mk64(hi)).into();
+        assert!(c2 == c);
+        let c3: U128 = U128::from(&(mk64(lo), mk64(hi)));
+        assert!(c3 == c);
+        let v = s.u128();
+        let (l, h) = mk128(v).split();
+        assert!(u64_of(&l) == v as u64 && u64_of(&h) == (v >> 64) as u64);
+        let (l2, h2): (U64, U64) = mk128(v).into();
+        assert!(l2 == l && h2 == h);
+        let (l3, h3): (U64, U64) = mk128(v).split_mixed();
+        assert!(l3 == l && h3 == h);
+        // mixed: U64 (lo) ++ U128 (hi) -> U192 and U128 (lo) ++ U64 (hi) -> U192
+        let m: U192 = mk64(lo).concat_mixed(&mk128(v));
+        let w = m.to_words();
+        assert!(w[0] == lo && w[1] == v as u64 && w[2] == (v >> 64) as u64);
+        let m2: U192 = mk128(v).concat_mixed(&mk64(hi));
+        let w2 = m2.to_words();
+        assert!(w2[0] == v as u64 && w2[1] == (v >> 64) as u64 && w2[2] == hi);
+        let (sl, sh): (U64, U128) = m.split_mixed();
+        assert!(u64_of(&sl) == lo && u128_of(&sh) == v);
+        let (tl, th): (U128, U64) = m2.split_mixed();
+        assert!(u128_of(&tl) == v && u64_of(&th) == hi);
+    }
+
+    /// Uint::resize: U128 -> U64 truncates (mod 2^64), U64 -> U128 / U192 zero-extends, same width is the identity;
+    /// From<&Uint<L>> for Uint<L2> is resize
+    fn c16_resize(s) {
+        let v = s.u128(); let a = s.u64();
+        let t: U64 = mk128(v).resize();
+        assert!(u64_of(&t) == v as u64);
+        let e: U128 = mk64(a).resize();
+        assert!(u128_of(&e) == a as u128);
+        let e3: U192 = mk128(v).resize();
+        let w = e3.to_words();
+        assert!(w[0] == v as u64 && w[1] == (v >> 64) as u64 && w[2] == 0);
+        let same: U128 = mk128(v).resize();
+        assert!(u128_of(&same) == v);
+        let f: U64 = U64::from(&mk128(v));
+        assert!(u64_of(&f) == v as u64);
+        let g: U128 = U128::from(&mk64(a));
+        assert!(u128_of(&g) == a as u128);
+        let t1: U64 = e3.resize();
+        assert!(u64_of(&t1) == v as u64);
+    }
+
+    /// Int::resize: I64 -> I128 / Int<3> sign-extends, I128 -> I64 keeps the low limb (truncation), identity at equal width
+    fn c16_int_resize(s) {
+        let a = s.i64(); let v = s.i128();
+        let x = I64::from_words([a as u64]);
+        let e: I128 = x.resize();
+        assert!(i128_of(&e) == a as i128);
+        s.cover(a < 0);
+        s.cover(a >= 0);
+        let e3: Int<3> = x.resize();
+        let ext = if a < 0 { u64::MAX } else { 0 };
+        let w = e3.to_words();
+        assert!(w[0] == a as u64 && w[1] == ext && w[2] == ext);
+        let y = I128::from_words([v as u64, (v >> 64) as u64]);
+        let t: I64 = y.resize();
+        assert!(t.to_words()[0] == v as u64);
+        let same: I128 = y.resize();
+        assert!(i128_of(&same) == v);
+        let y3: Int<3> = y.resize();
+        let ext = if v < 0 { u64::MAX } else { 0 };
+        let w = y3.to_words();
+        assert!(w[0] == v as u64 && w[1] == (v >> 64) as u64 && w[2] == ext);
+    }
+
+    // ------------------------------------------------------------------ BoxedUint
+
+    /// BoxedUint::from_be_slice at precision 0, 1, 7: 0..=2 octets (all values)
+    #[kani::unwind(4)]
+    fn c16_boxed_be_slice_p0_1_7(s) {
+        let buf = draw18(s);
+        let len = s.usize();
+        s.assume(len <= 2);
+        boxed_slice_case(s, &buf, len, 0, true);
+        boxed_slice_case(s, &buf, len, 1, true);
+        boxed_slice_case(s, &buf, len, 7, true);
+    }
+    /// BoxedUint::from_be_slice at precision 8, 9: 0..=3 octets
+    #[kani::unwind(4)]
+    fn c16_boxed_be_slice_p8_9(s) {
+        let buf = draw18(s);
+        let len = s.usize();
+        s.assume(len <= 3);
+        boxed_slice_case(s, &buf, len, 8, true);
+        boxed_slice_case(s, &buf, len, 9, true);
+    }
+    /// BoxedUint::from_be_slice at precision 63: 0..=10 octets
+    #[kani::unwind(4)]
+    fn c16_boxed_be_slice_p63(s) {
+        let buf = draw18(s);
+        let len = s.usize();
+        s.assume(len <= 10);
+        boxed_slice_case(s, &buf, len, 63, true);
+    }
+    /// BoxedUint::from_be_slice at precision 64: 0..=10 octets
+    #[kani::unwind(4)]
+    fn c16_boxed_be_slice_p64(s) {
+        let buf = draw18(s);
+        let len = s.usize();
+        s.assume(len <= 10);
+        boxed_slice_case(s, &buf, len, 64, true);
+    }
+    /// BoxedUint::from_be_slice at precision 65: 0..=10 octets
+    #[kani::unwind(4)]
+    fn c16_boxed_be_slice_p65(s) {
+        let buf = draw18(s);
+        let len = s.usize();
+        s.assume(len <= 10);
+        boxed_slice_case(s, &buf, len, 65, true);
+    }
+    /// BoxedUint::from_be_slice at precision 127: 0..=18 octets
+    #[kani::unwind(4)]
+    fn c16_boxed_be_slice_p127(s) {
+        let buf = draw18(s);
+        let len = s.usize();
+        s.assume(len <= 18);
+        boxed_slice_case(s, &buf, len, 127, true);
+    }
+    /// BoxedUint::from_be_slice at precision 128: 0..=18 octets
+    #[kani::unwind(4)]
+    fn c16_boxed_be_slice_p128(s) {
+        let buf = draw18(s);
+        let len = s.usize();
+        s.assume(len <= 18);
+        boxed_slice_case(s, &buf, len, 128, true);
+    }
+    /// BoxedUint::from_le_slice at precision 0, 1, 7
+    #[kani::unwind(4)]
+    fn c16_boxed_le_slice_p0_1_7(s) {
+        let buf = draw18(s);
+        let len = s.usize();
+        s.assume(len <= 2);
+        boxed_slice_case(s, &buf, len, 0, false);
+        boxed_slice_case(s, &buf, len, 1, false);
+        boxed_slice_case(s, &buf, len, 7, false);
+    }
+    /// BoxedUint::from_le_slice at precision 8, 9
+    #[kani::unwind(4)]
+    fn c16_boxed_le_slice_p8_9(s) {
+        let buf = draw18(s);
+        let len = s.usize();
+        s.assume(len <= 3);
+        boxed_slice_case(s, &buf, len, 8, false);
+        boxed_slice_case(s, &buf, len, 9, false);
+    }
+    /// BoxedUint::from_le_slice at precision 63: 0..=10 octets
+    #[kani::unwind(4)]
+    fn c16_boxed_le_slice_p63(s) {
+        let buf = draw18(s);
+        let len = s.usize();
+        s.assume(len <= 10);
+        boxed_slice_case(s, &buf, len, 63, false);
+    }
+    /// BoxedUint::from_le_slice at precision 64: 0..=10 octets
+    #[kani::unwind(4)]
+    fn c16_boxed_le_slice_p64(s) {
+        let buf = draw18(s);
+        let len = s.usize();
+        s.assume(len <= 10);
+        boxed_slice_case(s, &buf, len, 64, false);
+    }
+    /// BoxedUint::from_le_slice at precision 65
+    #[kani::unwind(4)]
+    fn c16_boxed_le_slice_p65(s) {
+        let buf = draw18(s);
+        let len = s.usize();
+        s.assume(len <= 10);
+        boxed_slice_case(s, &buf, len, 65, false);
+    }
+    /// BoxedUint::from_le_slice at precision 127: 0..=18 octets
+    #[kani::unwind(4)]
+    fn c16_boxed_le_slice_p127(s) {
+        let buf = draw18(s);
+        let len = s.usize();
+        s.assume(len <= 18);
+        boxed_slice_case(s, &buf, len, 127, false);
+    }
+    /// BoxedUint::from_le_slice at precision 128: 0..=18 octets
+    #[kani::unwind(4)]
+    fn c16_boxed_le_slice_p128(s) {
+        let buf = draw18(s);
+        let len = s.usize();
+        s.assume(len <= 18);
+        boxed_slice_case(s, &buf, len, 128, false);
+    }
+
+    /// BoxedUint::to_be_bytes / to_le_bytes are positional over the full precision: 64-bit (all values)
+    #[kani::unwind(4)]
+    fn c16_boxed_to_bytes_64(s) {
+        let a = s.u64();
+        let v = BoxedUint::from(a);
+        let be = v.to_be_bytes();
+        let le = v.to_le_bytes();
+        assert!(be.len() == 8 && le.len() == 8);
+        unrolled!(k in [0,1,2,3,4,5,6,7] {
+            assert!(le[k] == (a >> (8 * k)) as u8);
+            assert!(be[7 - k] == (a >> (8 * k)) as u8);
+        });
+    }
+    /// BoxedUint::to_be_bytes is positional: 128-bit (all values)
+    #[kani::unwind(4)]
+    fn c16_boxed_to_be_bytes_128(s) {
+        let a = s.u128();
+        let v = BoxedUint::from(a);
+        let be = v.to_be_bytes();
+        assert!(be.len() == 16);
+        unrolled!(k in [0,1,2,3,4,5,6,7,8,9,10,11,12,13,14,15] {
+            assert!(be[15 - k] == (a >> (8 * k)) as u8);
+        });
+    }
+    /// BoxedUint::to_le_bytes is positional: 128-bit (all values)
+    #[kani::unwind(4)]
+    fn c16_boxed_to_le_bytes_128(s) {
+        let a = s.u128();
+        let v = BoxedUint::from(a);
+        let le = v.to_le_bytes();
+        assert!(le.len() == 16);
+        unrolled!(k in [0,1,2,3,4,5,6,7,8,9,10,11,12,13,14,15] {
+            assert!(le[k] == (a >> (8 * k)) as u8);
+        });
+    }
+    /// round trip through the heap: to_be_bytes(from_be_slice(b, 65)) is b left-padded with zeros to 16 octets
+    /// (0..=9 octets, all values with b < 2^65)
+    #[kani::unwind(4)]
+    fn c16t_boxed_roundtrip_be_p65(s) {
+        let buf = draw18(s);
+        let len = s.usize();
+        s.assume(len <= 9);
+        if let Ok(v) = BoxedUint::from_be_slice(&buf[..len], 65) {
+            s.cover(len == 9);
+            let out = v.to_be_bytes();
+            assert!(out.len() == 16);
+            unrolled!(k in [0,1,2,3,4,5,6,7,8,9,10,11,12,13,14,15] {
+                // octet k from the right
+                let want = if k < len { buf[len - 1 - k] } else { 0 };
+                assert!(out[15 - k] == want);
+            });
+        }
+    }
+    /// round trip: to_le_bytes(from_le_slice(b, 65)) is b right-padded with zeros to 16 octets
+    #[kani::unwind(4)]
+    fn c16t_boxed_roundtrip_le_p65(s) {
+        let buf = draw18(s);
+        let len = s.usize();
+        s.assume(len <= 9);
+        if let Ok(v) = BoxedUint::from_le_slice(&buf[..len], 65) {
+            s.cover(len == 9);
+            let out = v.to_le_bytes();
+            assert!(out.len() == 16);
+            unrolled!(k in [0,1,2,3,4,5,6,7,8,9,10,11,12,13,14,15] {
+                let want = if k < len { buf[k] } else { 0 };
+                assert!(out[k] == want);
+            });
+        }
+    }
+
+    /// BoxedUint::from(u8..u128 / Limb / Uint): value preserved, precision 64 (128 for u128 / U128);
+    /// widen keeps the value and has the requested precision rounded up to 64; shorten keeps the low limbs
+    #[kani::unwind(6)]
+    fn c16_boxed_from_widen_shorten(s) {
+        let a8 = s.u8(); let a32 = s.u32(); let a64 = s.u64(); let a128 = s.u128();
+        let b = BoxedUint::from(a8);
+        assert!(b.bits_precision() == 64 && b.as_words()[0] == a8 as u64);
+        let b = BoxedUint::from(a32);
+        assert!(b.bits_precision() == 64 && b.as_words()[0] == a32 as u64);
+        let b = BoxedUint::from(a64);
+        assert!(b.bits_precision() == 64 && b.nlimbs() == 1 && b.as_words()[0] == a64);
+        let b = BoxedUint::from(Limb(a64));
+        assert!(b.bits_precision() == 64 && b.as_words()[0] == a64);
+        let c = BoxedUint::from(a128);
+        assert!(c.bits_precision() == 128 && c.nlimbs() == 2);
+        assert!(c.as_words()[0] == a128 as u64 && c.as_words()[1] == (a128 >> 64) as u64);
+        let d = BoxedUint::from(mk128(a128));
+        assert!(d.bits_precision() == 128 && d.as_words()[0] == a128 as u64 && d.as_words()[1] == (a128 >> 64) as u64);
+        // widen
+        let w1 = b.widen(64);
+        assert!(w1.bits_precision() == 64 && w1.as_words()[0] == a64);
+        let w2 = b.widen(65);
+        assert!(w2.bits_precision() == 128 && w2.as_words()[0] == a64 && w2.as_words()[1] == 0);
+        let w3 = c.widen(192);
+        assert!(w3.bits_precision() == 192 && w3.nlimbs() == 3);
+        assert!(w3.as_words()[0] == a128 as u64 && w3.as_words()[1] == (a128 >> 64) as u64 && w3.as_words()[2] == 0);
+        // shorten
+        let s1 = c.shorten(128);
+        assert!(s1.bits_precision() == 128 && s1.as_words()[0] == a128 as u64 && s1.as_words()[1] == (a128 >> 64) as u64);
+        let s2 = c.shorten(64);
+        assert!(s2.bits_precision() == 64 && s2.as_words()[0] == a128 as u64);
+        let s3 = c.shorten(1);
+        assert!(s3.bits_precision() == 64 && s3.as_words()[0] == a128 as u64);
+        let s4 = w3.shorten(65);
+        assert!(s4.bits_precision() == 128 && s4.as_words()[0] == a128 as u64 && s4.as_words()[1] == (a128 >> 64) as u64);
+    }
+    /// widen to less than the current precision panics (128-bit value, any request below 128)
+    #[kani::should_panic]
+    #[kani::unwind(6)]
+    fn c16_boxed_widen_smaller_panics(s) {
+        let a = s.u128();
+        let p = s.u32();
+        s.assume(p < 128);
+        let _ = BoxedUint::from(a).widen(p);
+        returned_instead_of_panicking();
+    }
+    /// shorten to more than the current precision panics (64-bit value, request in 65..=256)
+    #[kani::should_panic]
+    #[kani::unwind(6)]
+    fn c16_boxed_shorten_larger_panics(s) {
+        let a = s.u64();
+        let p = s.u32();
+        s.assume(p > 64 && p <= 256);
+        let _ = BoxedUint::from(a).shorten(p);
+        returned_instead_of_panicking();
+    }
 }
